@@ -255,7 +255,20 @@ func run(raw json.RawMessage) (common.Case, error) {
 		c.Obs = map[string]any{"selectors": sels, "matches": out}
 		c.Nontrivial = len(sets) >= 2
 		if want := spec(in.Labels); want != out {
-			if want {
+			wsAfterTemplated := false
+			seenTemplated := false
+			for _, l := range in.Labels {
+				if l[1] != "" && strings.TrimSpace(l[1]) == "" && seenTemplated {
+					wsAfterTemplated = true
+				}
+				if l[1] != "" && templated(l[1]) {
+					seenTemplated = true
+				}
+			}
+			if wsAfterTemplated {
+				c.GoPred = "a whitespace-only label value that follows a templated label is treated as templated"
+				c.Sig = "whitespace-label-after-templated"
+			} else if want {
 				c.GoPred = "labels satisfy every selector of one set but matches returned false"
 				c.Sig = "and-across-sets"
 			} else {
